@@ -67,6 +67,7 @@ type Exec struct {
 	cellSeq   int
 	symSeq    int
 	mapSeq    int
+	syncMaps  map[*Cell]*MapObj
 	globals   map[*ssa.Global]*Cell
 	ginit     map[*ssa.Global]bool
 	nondets   []nondetRec
